@@ -24,6 +24,7 @@ func checkC18(p *Prog, r *Report) {
 	rCtx := r.Rule("template-context", "the element is printed inside single quotes, one echo per row")
 	rRows := r.Rule("rows", "rows are newline-free, non-empty, sorted and distinct, and the self row is present")
 	rScan := r.Rule("scan-total", "every line of the payload is examined; tagged lines are split into name and description")
+	rOwn := r.Rule("result-owned", "the returned function text lives in memory allocated by this call (not a pooled, global or field buffer a later call rewrites)")
 
 	gf := p.Func(sffPkg, "", "GenFuncList")
 	if nil == gf {
@@ -32,6 +33,7 @@ func checkC18(p *Prog, r *Report) {
 	}
 	r.Saw("func " + fnName(gf))
 	c := fnName(gf)
+	checkResultOwned(gf, rOwn)
 
 	/* The Execute call and its data. */
 	var exec *ssa.Call
@@ -387,4 +389,46 @@ func instrDominatesLoop(st, target ssa.Instruction) bool {
 
 func instrDominatesLoop2(a, loopInstr ssa.Instruction) bool {
 	return a.Block().Dominates(loopInstr.Block())
+}
+
+// checkResultOwned: on success returns, result 0 is rooted in allocations,
+// constants and parameters of this very call.
+func checkResultOwned(fn *ssa.Function, ru *Rule) {
+	n, bad := 0, 0
+	through := func(n string) bool {
+		switch n {
+		case "(*bytes.Buffer).Bytes", "(*bytes.Buffer).String", "(*strings.Builder).String", "fmt.Sprintf", "fmt.Appendf", "bytes.Clone", "slices.Clone", "strings.Clone":
+			return true
+		}
+		return false
+	}
+	eachInstr(fn, func(i ssa.Instruction) {
+		ret, ok := i.(*ssa.Return)
+		if !ok || 0 == len(ret.Results) {
+			return
+		}
+		if 2 == len(ret.Results) && !isNilConst(retVal(ret, 1)) {
+			return
+		}
+		n++
+		for _, x := range valueRoots(retVal(ret, 0), through) {
+			switch x.Kind {
+			case "alloc", "const", "param":
+			case "other":
+				if _, ok := x.V.(*ssa.MakeSlice); ok {
+					continue
+				}
+				bad++
+				ru.Bad(fnName(fn)+":result-buffer", posOf(ret), "the returned bytes derive from %s", x)
+			default:
+				bad++
+				ru.Bad(fnName(fn)+":result-buffer", posOf(ret), "the returned bytes belong to %s, not to memory allocated for this call: the next call (or a concurrent one) rewrites a function text handed out earlier", x)
+			}
+		}
+	})
+	if 0 == n {
+		ru.Unproven(fnName(fn)+":result-buffer", fn.Pos(), "no success return found")
+	} else if 0 == bad {
+		ru.OK(fnName(fn)+":result-buffer", fn.Pos(), "the result is rendered into buffers allocated in this call (%d success returns)", n)
+	}
 }
